@@ -19,6 +19,7 @@ def run(project, rep):
     rep.run(L.l_r1_decimal, project, rep)
     rep.run(L.l_r2_escaping, project, rep)
     rep.run(L.l_r3_shapes, project, rep)
+    rep.run(L.l_r4_list_elements, project, rep)
     rep.run(Z.z_r2_naive, project, rep)
     rep.run(T.t_r3, project, rep)
     rep.run(T.t_r4, project, rep)
